@@ -1,14 +1,16 @@
 #!/usr/bin/env python3
 """Re-evaluate the changes filed under seeded/ against the current machinery (regression test of the checks):
 tools/reseed.py [ids...]   - for each seeded/<id>: tools/evalmut.sh seeded/<id> <checks of its meta>, meta.json is updated.
-Honours VERIF_DIR (default /verif)."""
+Honours VERIF_DIR (default /verif), SHARD=i/n, SKIP_DEMO=1 (checks only)."""
 import json, os, re, subprocess, sys, glob
 ROOT = os.environ.get('VERIF_DIR', '/verif')
 only = sys.argv[1:]
 bad = []
-for d in sorted(glob.glob(ROOT + '/seeded/*')):
+shard = os.environ.get('SHARD')  # "i/n": every n-th change, starting with the i-th
+for idx, d in enumerate(sorted(glob.glob(ROOT + '/seeded/*'))):
     key = os.path.basename(d)
     if only and key not in only: continue
+    if shard and idx % int(shard.split('/')[1]) != int(shard.split('/')[0]): continue
     meta = json.load(open(d + '/meta.json'))
     checks = list(meta.get('checks_run', {}).keys()) or [meta['breaks_property']]
     if meta['breaks_property'] not in checks: checks.insert(0, meta['breaks_property'])
